@@ -7,8 +7,10 @@ use crate::interpreter::variant_casts::VariantCasts;
 pub fn run<S: InterpreterTrait>(interpreter: &mut S) -> Result<(), RuntimeError> {
     let s: &str = interpreter.context()[0].to_str_unchecked();
     let count: usize = interpreter.context()[1].to_non_negative_int()?;
-    let right_part: String = if s.len() > count {
-        s.chars().skip(s.len() - count).collect()
+    // positions are counted in characters
+    let length: usize = s.chars().count();
+    let right_part: String = if length > count {
+        s.chars().skip(length - count).collect()
     } else {
         s.to_owned()
     };
